@@ -163,6 +163,7 @@ type fpGen struct {
 	fieldUses     []fpRead // every read of recv.field inside methods (filtered later)
 	mvals         []fpMethodVal
 	paramNames    map[string][]string // qualified function -> parameter names in order
+	heap          *fpHeap             // objects written but not created by the writer (footprint_c20heap.go)
 }
 
 func shortOf(importPath string) string {
@@ -253,6 +254,8 @@ type fpWalk struct {
 	escapes  []bool            // escapes[d-1]: the literal at depth d escapes (is not called / deferred / started on the spot)
 	direct   map[ast.Node]bool // function literals / selectors that are the callee of a call expression
 	valueUse map[string]bool   // identifiers of the declared function that are used as a value (not only called / assigned to)
+	resEnv   map[string]map[string]bool // local variable -> origins of the object it refers to when this function did not create it
+	capAlias map[string]*fpCapture      // local variable -> the captured variable of an enclosing function it aliases
 }
 
 // static type of an expression where it is syntactically evident ("" = unknown)
@@ -636,8 +639,12 @@ func (w *fpWalk) write(pos token.Pos, lhs ast.Expr, rhs ast.Expr, define bool) {
 			if src.Root.Kind != "fresh" {
 				p := fpProv{Root: src.Root, Path: append(append([]string{}, src.Path...), "[]")}
 				w.emit(pos, app.Args[0], p, "append")
+			} else if !w.emitCapturedAlias(pos, app.Args[0], append(append([]string{}, src.Path...), "[]"), "append") {
+				// append into a slice that this function received from somewhere else
+				w.heapWrite(pos, app.Args[0], fpProv{Root: src.Root, Path: append(append([]string{}, src.Path...), "[]")}, "append")
 			}
 		}
+		w.aliasBind(id.Name, rhs)
 		if define {
 			if d, ok := w.decl[id.Name]; !ok || d.depth != w.depth {
 				w.declare(id.Name)
@@ -652,8 +659,16 @@ func (w *fpWalk) write(pos token.Pos, lhs ast.Expr, rhs ast.Expr, define bool) {
 				p = fresh("") // x := *y copies the value
 			}
 			w.bindType(id.Name, rhs)
+			w.heapBind(id.Name, rhs, 0)
+			if p.Root.Kind == "fresh" {
+				// the result of a function that hands out a package-level cell (pointer, slice, map) IS that cell
+				if gl := w.handedOutCell(id.Name); gl != "" {
+					p = fpProv{Root: fpRoot{Kind: "global", Name: gl}}
+				}
+			}
 			w.bind(id.Name, p)
 		} else {
+			w.heapBind(id.Name, nil, 0)
 			w.bind(id.Name, fresh(""))
 		}
 		return
@@ -676,7 +691,11 @@ func (w *fpWalk) write(pos token.Pos, lhs ast.Expr, rhs ast.Expr, define bool) {
 			}
 			return
 		}
-		w.emitCaptured(pos, lhs, p.Path, op) // object created by an enclosing function, written by an escaping closure
+		if !w.emitCaptured(pos, lhs, p.Path, op) { // object created by an enclosing function, written by an escaping closure
+			if !w.emitCapturedAlias(pos, lhs, p.Path, op) {
+				w.heapWrite(pos, lhs, p, op) // object received from somewhere else
+			}
+		}
 		return
 	}
 	if len(p.Path) == 1 && rhs != nil && op == "assign" && (p.Root.Kind == "param" || p.Root.Kind == "recv") {
@@ -837,11 +856,14 @@ func (w *fpWalk) exprs(es ...ast.Expr) {
 			case *ast.CallExpr:
 				w.direct[ast.Unparen(x.Fun)] = true
 				w.callee(x)
+				w.heapErrorsAs(x)
 				if c, ok := isAppend(x); ok && !w.inAssign {
 					src := w.provOf(c.Args[0])
 					if src.Root.Kind != "fresh" {
 						p := fpProv{Root: src.Root, Path: append(append([]string{}, src.Path...), "[]")}
 						w.emit(c.Pos(), c.Args[0], p, "append")
+					} else if !w.emitCapturedAny(c.Pos(), c.Args[0], append(append([]string{}, src.Path...), "[]"), "append") {
+						w.heapWrite(c.Pos(), c.Args[0], fpProv{Root: src.Root, Path: append(append([]string{}, src.Path...), "[]")}, "append")
 					}
 				}
 			case *ast.SelectorExpr:
@@ -866,6 +888,12 @@ func (w *fpWalk) funcLit(fl *ast.FuncLit, option bool) {
 	for k, v := range saveT {
 		w.tenv[k] = v
 	}
+	saveRes, saveAlias := w.resEnv, w.capAlias
+	w.resEnv, w.capAlias = map[string]map[string]bool{}, map[string]*fpCapture{}
+	for k, v := range saveRes {
+		w.resEnv[k] = v
+	}
+	defer func() { w.resEnv, w.capAlias = saveRes, saveAlias }()
 	saveDecl, saveDepth, saveEsc := w.decl, w.depth, w.escapes
 	w.decl = map[string]fpDecl{}
 	for k, v := range saveDecl {
@@ -964,6 +992,9 @@ func (w *fpWalk) stmt(s ast.Stmt) {
 		w.exprs(x.Call)
 		w.held = saveHeld
 	case *ast.ReturnStmt:
+		if w.f.gen.heap.collect {
+			w.heapReturn(x)
+		}
 		for _, r := range x.Results {
 			if w.phase != "option" && w.recvT == "" {
 				if fl := w.optionLit(r); fl != nil {
@@ -972,6 +1003,9 @@ func (w *fpWalk) stmt(s ast.Stmt) {
 				}
 			}
 			if fl, ok := r.(*ast.FuncLit); ok {
+				if w.depth == 0 {
+					w.f.gen.heap.factories[w.fn] = true
+				}
 				w.returned = true
 				w.funcLit(fl, false)
 				continue
@@ -1016,6 +1050,11 @@ func (w *fpWalk) stmt(s ast.Stmt) {
 				r = nil // op-assign
 			}
 			w.write(x.Pos(), l, r, x.Tok == token.DEFINE)
+			if i > 0 && len(x.Rhs) == 1 && len(x.Lhs) > 1 {
+				if id, ok := l.(*ast.Ident); ok {
+					w.heapBind(id.Name, x.Rhs[0], i) // x, err := f(): result i
+				}
+			}
 		}
 	case *ast.DeclStmt:
 		if gd, ok := x.Decl.(*ast.GenDecl); ok {
@@ -1441,7 +1480,7 @@ func (g *fpGen) scan() {
 		fd, ff := j.fd, j.ff
 		rn, rt := recvOf(fd)
 		w := &fpWalk{f: ff, method: fd.Name.Name, env: map[string]fpProv{}, phase: "func", tenv: map[string]string{}, tparams: map[string]string{},
-			decl: map[string]fpDecl{}, direct: map[ast.Node]bool{}}
+			decl: map[string]fpDecl{}, direct: map[ast.Node]bool{}, resEnv: map[string]map[string]bool{}, capAlias: map[string]*fpCapture{}}
 		if fd.Type.TypeParams != nil {
 			for _, tp := range fd.Type.TypeParams.List {
 				for _, n := range tp.Names {
@@ -1591,13 +1630,27 @@ func (g *fpGen) reach(siteFns map[string]bool) map[string][]string {
 }
 
 func footprintFacts(gc *genCtx) string {
-	g := &fpGen{g: gc, fset: token.NewFileSet(), pkgs: map[string]*fpPkg{}, byShort: map[string]*fpPkg{}, anchors: map[string]bool{},
-		inst: map[string]bool{}, calls: map[string]map[string]bool{}, allFn: map[string]bool{}, methodsByName: map[string][]string{}, exported: map[string]bool{},
-		paramNames: map[string][]string{}}
+	mk := func() *fpGen {
+		return &fpGen{g: gc, fset: token.NewFileSet(), pkgs: map[string]*fpPkg{}, byShort: map[string]*fpPkg{}, anchors: map[string]bool{},
+			inst: map[string]bool{}, calls: map[string]map[string]bool{}, allFn: map[string]bool{}, methodsByName: map[string][]string{}, exported: map[string]bool{},
+			paramNames: map[string][]string{}, heap: newFpHeap()}
+	}
+	g := mk()
 	if problems := g.load(); len(problems) > 0 {
 		gc.unsup["footprint"] = problems
 		return "def facts : Footprint.Facts := UNSUPPORTED_footprint_scan_failed\n"
 	}
+	g.heapLoad()
+	g.heapCells()
+	// which function results may be a package-level cell / an object handed through: scan to a fixpoint, then the real scan
+	handsOut := heapFixpoint(func() *fpGen {
+		a := mk()
+		a.load()
+		a.heapLoad()
+		a.heapCells()
+		return a
+	})
+	g.heap.ret = handsOut
 	g.scan()
 
 	var b strings.Builder
@@ -1622,14 +1675,21 @@ func footprintFacts(gc *genCtx) string {
 		case s.Root.Kind == "recv" || s.Root.Kind == "param":
 			// write through the receiver / a parameter of a function that an escaping closure (or method value) hands a
 			// captured variable to
+			followed := false
 			for _, mv := range g.mvals {
 				if mv.Method == s.Func && ((s.Root.Kind == "recv" && mv.Param == "") || (s.Root.Kind == "param" && mv.Param == s.Root.Name)) {
 					sites = append(sites, captured(s, mv.Cap))
+					followed = true
 					break
 				}
 			}
+			if !followed {
+				g.heapDropped(s)
+			}
 		}
 	}
+	// foreign writes that may hit a package-level pointer cell of the same pointee type (footprint_c20heap.go)
+	sites = append(sites, g.heapExpansion()...)
 	sort.SliceStable(sites, func(i, j int) bool {
 		if sites[i].File != sites[j].File {
 			return sites[i].File < sites[j].File
@@ -1764,6 +1824,7 @@ func footprintFacts(gc *genCtx) string {
 	b.WriteString("def globalVars : List String := " + leanList(gv) + "\n\n")
 	gc.facts["globalVars"] = gv
 
+	b.WriteString(g.heapFacts(handsOut))
 	b.WriteString("def facts : Footprint.Facts :=\n  { sites := writeSites, aliases := aliasInits, ctors := ctors, getters := getters, reads := reads, reach := reach, globals := globalVars }\n")
 	return b.String()
 }
